@@ -326,7 +326,9 @@ def gen_c15(seed, tier):
     desc, rng = base_desc(seed, tier, registry=registry, faults=rng0.random() < 0.5,
                           p_unpack=0.0 if registry else 0.08)
     op = desc["ops"][0]
-    op["cfg"]["progress"] = rng.choice(["rec", "rec", "rec2", "rec2", "rec2fail"])
+    op["cfg"]["progress"] = rng.choice(["rec", "rec", "rec2", "rec2", "rec2fail", "mixed-sinkfail"])
+    if op["cfg"]["progress"] == "mixed-sinkfail":
+        op["cfg"]["sink_fails_from"] = rng.choice([1, 1, 2, 3])
     op["cfg"]["fail_member"] = rng.choice(["obs0", "obs1", "obs2"])
     op["cfg"]["obs_yield"] = rng.random() < 0.5
     op["cfg"]["max_errors"] = rng.choice([0, 1, 3, None])
